@@ -150,7 +150,7 @@ var filterForms = []string{
 	"%s='1.1.1.1'", "%s!='a'", "%s<>'a b'", "%s in ('a')", "%s in ('a','/b',c)", "%s not in ('a','b')",
 	"%s like 'a%%'", "%s not like '%%a'", "%s=~'a.*'", "%s!~'/a[0-9]+/'",
 }
-var filterFormsFew = []int{0, 5, 6, 9}          // 3 filters, quick
+var filterFormsFew = []int{0, 5, 6, 9}       // 3 filters, quick
 var filterFormsMid = []int{0, 4, 5, 6, 7, 9} // 3 filters, thorough
 
 type timeForm struct {
